@@ -124,13 +124,16 @@ CLAIMED = {
         "technique": "Coq proof (identity-consistency invariant over leaf substitution; cipher laws as hypotheses) + differential correspondence with a stand-in eyaml",
     },
     "C07": {
-        "text": ("21 theorems (Coq, no axioms) over a model of yaml_paths.search_for_paths / yield_children / "
-                 "search_anchor / process_yaml_file / print_results: the search is sound (only satisfying places "
-                 "are reported), complete for value search and complete up to the listed finding F-C07-1 with "
-                 "key-name search (a matching key hides what lies beneath it), reports each place at most once; "
+        "text": ("20 theorems (Coq, no axioms) over a model of yaml_paths.search_for_paths / yield_children / "
+                 "record_anchors / search_anchor / process_yaml_file / print_results: the search is sound (only "
+                 "satisfying places are reported), complete for value search on ANY document (a lone-scalar document "
+                 "included: its place is the root; F-C07-3 repaired) and complete up to the listed finding F-C07-1 with "
+                 "key-name search (a matching key deliberately hides what lies beneath it), reports each place at most once; "
                  "under each of the four alias-option combinations every visible satisfying place is reported and "
-                 "no excluded aliased repeat is (guards: anchor names not redefined = F-C07-4, anchors exposed; "
-                 "each with a _refuted witness); --expand reports exactly the leaf descendants; printing emits "
+                 "no excluded aliased repeat is (guard: anchor names not redefined = F-C07-4, with a _refuted witness; "
+                 "plus the loader guarantee shared_closed - an aliased repeat / merged-in entry holds nothing new; the "
+                 "former guard `exposed` is gone since record_anchors keeps the anchors of unsearched subtrees on "
+                 "record); --expand reports exactly the leaf descendants; printing emits "
                  "exactly the de-duplicated results; C07_resolves_text_partial - the reported text is the built "
                  "path of the matched location, str() leaves it unchanged, and the required query of the "
                  "evaluator model on it yields exactly the node there (guards pb_safe = F-C07-2 and no anchored "
